@@ -345,7 +345,9 @@ def check_e2e(case, rec, hang_s=30.0):
         if x in case["guard_of"]:
             cond = var("<cond>" + case["guard_of"][x])
             deps.add("set_" + case["guard_of"][x])
-        kw = dict(id=x, depends_on=frozenset(deps), condition=cond)
+        # (every third statement gets its dependencies as a one-shot iterable: the constructor takes any iterable)
+        oneshot = g["ids"].index(x) % 3 == 1 and x not in case["enders"]
+        kw = dict(id=x, depends_on=(d for d in sorted(deps)) if oneshot else frozenset(deps), condition=cond)
         if x in case["enders"]:
             # record first (as a dependency), then end the step
             stmts.append(AssignFunctionCall(("w_" + x,), "<func>rec", (g["ids"].index(x),), id="pre_" + x,
